@@ -63,11 +63,23 @@ def sqlite_profile():
     return out
 
 
+def _inline_limit_locals(body):
+    """`let n = x.len(); let max = self.limits.m; if n > max` reads as `if x.len() > self.limits.m`: locals that only name a length or a configured limit
+    are substituted where they are used (the limit checks are then recognised whichever way they are written)"""
+    for _ in range(2):
+        for m in list(re.finditer(r'\blet\s+(\w+)(?:\s*:\s*[\w:<>]+)?\s*=\s*((?:&?\s*)?(?:self\s*\.\s*limits\s*\.\s*\w+|[\w.]+?\.len\(\)|[\w.]+?\.as_str\(\)\s*\.len\(\)))\s*;', body)):
+            name, rhs = m.group(1), m.group(2).lstrip('& ').strip()
+            head, tail = body[:m.end()], body[m.end():]
+            tail = re.sub(r'(?<![\w.])' + re.escape(name) + r'(?![\w(])', rhs, tail)
+            body = head + tail
+    return body
+
+
 def memory_profile():
     out = {}
     base = os.path.join(REPO, 'crates', 'mdk-memory-storage', 'src')
     for rel, fn in MEMORY_METHODS:
-        body = S.fn_body_deep(open(os.path.join(base, rel)).read(), fn)
+        body = _inline_limit_locals(S.fn_body_deep(open(os.path.join(base, rel)).read(), fn))
         a = {}
         for m in re.finditer(r'(?:(\w+)\s*\.\s*)?(\w+)\s*\.len\(\)\s*>=?\s*self\s*\.\s*limits\s*\.\s*(\w+)', body):
             attr = m.group(2)
